@@ -6,14 +6,10 @@
 
 /// Kani concrete playback for `c19::quick::lattice_index_merge` (check: assertion failed: got[0] == row[0] as u8 && got[1] == row[1] as u8 && got[2] == row[2] as u8)
 #[test]
-fn kani_concrete_playback_lattice_index_merge_445497144253315473() {
+fn kani_concrete_playback_lattice_index_merge_6265055838460511322() {
     let concrete_vals: Vec<Vec<u8>> = vec![
         // 1
         vec![1],
-        // 0
-        vec![0],
-        // 2
-        vec![2],
         // 1
         vec![1],
         // 0
@@ -24,37 +20,41 @@ fn kani_concrete_playback_lattice_index_merge_445497144253315473() {
         vec![1],
         // 2
         vec![2],
-        // 2
-        vec![2],
+        // 1
+        vec![1],
+        // 1
+        vec![1],
         // 0
         vec![0],
         // 1
         vec![1],
+        // 0
+        vec![0],
         // 2
         vec![2],
         // 1
         vec![1],
-        // 2
-        vec![2],
+        // 1
+        vec![1],
+        // 1
+        vec![1],
+        // 1
+        vec![1],
     ];
     kani::concrete_playback_run(concrete_vals, crate::c19::quick::lattice_index_merge);
 }
 /// Kani concrete playback for `c19::quick::lattice_index_merge` (check: assertion failed: vals.len() == r [0] as usize + r [1] as usize + r [2] as usize && vals.len() >)
 #[test]
-fn kani_concrete_playback_lattice_index_merge_236630100452332435() {
+fn kani_concrete_playback_lattice_index_merge_12247118731072318105() {
     let concrete_vals: Vec<Vec<u8>> = vec![
         // 1
         vec![1],
-        // 1
-        vec![1],
         // 2
         vec![2],
+        // 0
+        vec![0],
         // 1
         vec![1],
-        // 1
-        vec![1],
-        // 2
-        vec![2],
         // 1
         vec![1],
         // 0
@@ -63,6 +63,10 @@ fn kani_concrete_playback_lattice_index_merge_236630100452332435() {
         vec![1],
         // 1
         vec![1],
+        // 2
+        vec![2],
+        // 1
+        vec![1],
         // 1
         vec![1],
         // 1
@@ -71,8 +75,8 @@ fn kani_concrete_playback_lattice_index_merge_236630100452332435() {
         vec![1],
         // 2
         vec![2],
-        // 1
-        vec![1],
+        // 0
+        vec![0],
         // 2
         vec![2],
     ];
@@ -81,28 +85,28 @@ fn kani_concrete_playback_lattice_index_merge_236630100452332435() {
 /* native results:
 [
  {
-  "test": "kani_concrete_playback_lattice_index_merge_445497144253315473",
+  "test": "kani_concrete_playback_lattice_index_merge_6265055838460511322",
   "check": "assertion failed: got[0] == row[0] as u8 && got[1] == row[1] as u8 && got[2] == row[2] as u8",
   "profile": "dev",
   "native": "FAILED",
   "panic": "panicked at src/c19.rs:612:10:\nassertion failed: got[0] == row[0] as u8 && got[1] == row[1] as u8 && got[2] == row[2] as u8"
  },
  {
-  "test": "kani_concrete_playback_lattice_index_merge_445497144253315473",
+  "test": "kani_concrete_playback_lattice_index_merge_6265055838460511322",
   "check": "assertion failed: got[0] == row[0] as u8 && got[1] == row[1] as u8 && got[2] == row[2] as u8",
   "profile": "release",
   "native": "FAILED",
   "panic": "panicked at src/c19.rs:612:10:\nassertion failed: got[0] == row[0] as u8 && got[1] == row[1] as u8 && got[2] == row[2] as u8"
  },
  {
-  "test": "kani_concrete_playback_lattice_index_merge_236630100452332435",
+  "test": "kani_concrete_playback_lattice_index_merge_12247118731072318105",
   "check": "assertion failed: vals.len() == r [0] as usize + r [1] as usize + r [2] as usize && vals.len() >",
   "profile": "dev",
   "native": "FAILED",
   "panic": "panicked at src/c19.rs:633:4:\nassertion failed: vals.len() == r[0] as usize + r[1] as usize + r[2] as usize && vals.len() > 0"
  },
  {
-  "test": "kani_concrete_playback_lattice_index_merge_236630100452332435",
+  "test": "kani_concrete_playback_lattice_index_merge_12247118731072318105",
   "check": "assertion failed: vals.len() == r [0] as usize + r [1] as usize + r [2] as usize && vals.len() >",
   "profile": "release",
   "native": "FAILED",
